@@ -1408,13 +1408,20 @@ class System:
             i += 1
         prev = self.allobjects[fullName]
         obj.report(f"duplicate {str(prev)}", thresh=1)
+        # Everything registered below the superseded object follows it to its new name,
+        # including older definitions superseded inside it (which are no longer in any 'contents').
+        below = [(k, o) for k, o in self.allobjects.items() if k.startswith(fullName + '.')]
         self._remove(prev)
+        for k, _ in below:
+            self.allobjects.pop(k, None)
         prev.name = obj.name + ' ' + str(i)
         def readd(o: Documentable) -> None:
             self.allobjects[o.fullName()] = o
             for c in o.contents.values():
                 readd(c)
         readd(prev)
+        for _, o in below:
+            self.allobjects[o.fullName()] = o
         self.allobjects[fullName] = obj
 
 
